@@ -1,6 +1,7 @@
 mod elems;
 mod exec;
 mod gen;
+mod pure;
 mod tape;
 
 use exec::{make_runner, Runner};
@@ -47,10 +48,8 @@ fn replay(path: &str, out: &mut dyn Write) {
                 let coll = kvget(&toks, "coll", "map").to_string();
                 let drop = kvget(&toks, "drop", "1") == "1";
                 let lay = kvget(&toks, "lay", "std").to_string();
-                let r = make_runner(&coll, drop, &lay);
-                // the header is re-derived from the real types: a stale header is a harness bug
                 writeln!(out, "scn {}", toks[1]).unwrap();
-                runner = Some(r);
+                runner = if coll == "pure" { None } else { Some(make_runner(&coll, drop, &lay)) };
             }
             Some("env") => tape::with(|t| t.p.apply(&toks[1..])),
             Some("plan") => tape::with(|t| {
@@ -64,7 +63,11 @@ fn replay(path: &str, out: &mut dyn Write) {
                 let obs = r.op(toks[1], toks[2], &toks[3..]);
                 writeln!(out, "{}", obs).unwrap();
             }
+            Some("fn") | Some("fnrange") => writeln!(out, "{}", pure::eval(&toks)).unwrap(),
             Some("end") => {
+                if runner.is_none() {
+                    writeln!(out, "end").unwrap();
+                }
                 if let Some(mut r) = runner.take() {
                     let complaints = r.finish();
                     if complaints.is_empty() {
@@ -162,6 +165,22 @@ fn main() {
             let seed: u64 = args[3].parse().unwrap();
             let count: usize = args[4].parse().unwrap();
             generate(profile, seed, count, &args[5]);
+        }
+        Some("genpure") => {
+            let seed: u64 = args[2].parse().unwrap();
+            let thorough = args[3] == "thorough";
+            let out = &args[4];
+            let mut ops = std::io::BufWriter::new(std::fs::File::create(format!("{}.ops", out)).unwrap());
+            let mut real = std::io::BufWriter::new(std::fs::File::create(format!("{}.real", out)).unwrap());
+            writeln!(ops, "scn pure-{} coll=pure w={}", seed, hashbrown::verif::GROUP_WIDTH).unwrap();
+            writeln!(real, "scn pure-{}", seed).unwrap();
+            for l in pure::generate(seed, thorough) {
+                writeln!(ops, "{}", l).unwrap();
+                let toks: Vec<&str> = l.split_whitespace().collect();
+                writeln!(real, "{}", pure::eval(&toks)).unwrap();
+            }
+            writeln!(ops, "end").unwrap();
+            writeln!(real, "end").unwrap();
         }
         Some("width") => println!("{}", hashbrown::verif::GROUP_WIDTH),
         _ => {
